@@ -72,12 +72,15 @@ Print Assumptions C02_only_recoverable.
 (* allocation requests of one Decode call: for every run tree that satisfies the decoder's
    invariants [wf] (progress of every leaf and head, nesting below MaxDepth, pre-sizing by
    decInferLen capped at max(1024, MaxInitLen), only the last child of a container incomplete),
-   every MaxDepth md, MaxInitLen mil, element size bound U, per-byte leaf cost KL and input
-   length len:  Sigma allocations <= K0 + K1 * len  with
-   K0 = md * max(1024, mil) * U   and   K1 = KL + 64 + 13 * U  — whatever lengths are claimed *)
-Theorem C02_alloc : forall (md mil U KL : Z), (0 <= U)%Z -> (0 <= KL)%Z -> forall (r : run) (len : Z),
+   every MaxDepth md, MaxInitLen mil (negative = default, F02-2), element size bound U (0 included:
+   zero-size elements, F02-3), per-element bookkeeping OV (map buckets), per-byte leaf cost KL and
+   input length len:  Sigma allocations <= K0 + K1 * len  with
+   K0 = md * max(1024, mil) * (U + OV)   and   K1 = KL + 64 + 64 * OV + 13 * (U + OV)
+   — whatever lengths are claimed.  With the decInferLen of before F02-3 (claimed length returned
+   as is for unit = 0) the statement is false for OV > 0: see C02_alloc_nonvacuous. *)
+Theorem C02_alloc : forall (md mil U KL OV : Z), (0 <= U)%Z -> (0 <= KL)%Z -> (0 <= OV)%Z -> forall (r : run) (len : Z),
   wf md U KL 0 r -> (0 < md)%Z -> (consumed r <= len)%Z ->
-  (alloc mil r <= md * (maxInitLen mil * U) + (KL + 64 + 13 * U) * len)%Z.
+  (alloc mil OV r <= md * (maxInitLen mil * (U + OV)) + (KL + 64 + 64 * OV + 13 * (U + OV)) * len)%Z.
 Proof. exact alloc_lemma. Qed.
 Print Assumptions C02_alloc.
 
@@ -119,13 +122,16 @@ Example C02_terminates_nonvacuous :
 Proof. vm_compute. repeat apply conj; reflexivity. Qed.
 
 (* a run that claims 2^40 elements of 16 bytes three levels deep and then ends: the requests stay
-   at 3 * 1024 * 16 + small, and the premises hold *)
+   near 3 * 1024 * 16, and the premises hold; a map of ZERO-size entries claiming 2^30 of them over
+   an io.Reader with MaxInitLen = -1 is pre-sized for 1024 entries (16 bookkeeping bytes each) *)
 Example C02_alloc_nonvacuous :
   let r := Cont 1099511627776 16 9 (RCons (Cont 1099511627776 16 9 (RCons (Cont 1099511627776 16 9 RNil false) RNil) false) RNil) false in
-  wf 1024 16 1 0 r /\ consumed r = 27%Z /\ alloc 0 r = 49280%Z /\
-  (alloc 0 r <= 1024 * (maxInitLen 0 * 16) + (1 + 64 + 13 * 16) * 27)%Z /\
+  wf 1024 16 1 0 r /\ consumed r = 27%Z /\ alloc 0 0 r = 49280%Z /\
+  (alloc 0 0 r <= 1024 * (maxInitLen 0 * (16 + 0)) + (1 + 64 + 64 * 0 + 13 * (16 + 0)) * 27)%Z /\
   (* a completed container is paid for by its elements *)
-  alloc 0 (Cont 3 16 1 (RCons (Leaf 1 1) (RCons (Leaf 1 1) (RCons (Leaf 1 1) RNil))) true) = 243%Z.
+  alloc 0 0 (Cont 3 16 1 (RCons (Leaf 1 1) (RCons (Leaf 1 1) (RCons (Leaf 1 1) RNil))) true) = 243%Z /\
+  wf 1024 0 1 0 (Cont 1073741824 0 9 RNil false) /\ alloc (-1) 16 (Cont 1073741824 0 9 RNil false) = 16384%Z /\
+  decInferLen 1073741824 (maxInitLen (-1)) 0 = 1024%Z /\ maxInitLen (-9223372036854775808) = 1024%Z.
 Proof.
   cbv zeta. repeat apply conj; try (vm_compute; reflexivity); try (cbn; lia); try exact I;
     try (intros; discriminate); try (vm_compute; intro; discriminate).
